@@ -162,6 +162,7 @@ class FileGameBuilder:
         self.denom = denom or rng.choice([4, 10, 100])
         self.inc_pool = []
         self.written = set()     # outcome ids whose payoffs have been written at some node
+        self.leaf_pairs = []     # payoff pairs of the leaves built so far
 
     def outcome(self, pair, fresh=False):
         if pair in self.outcomes and not fresh:
@@ -189,11 +190,14 @@ class FileGameBuilder:
             pair = (u1 - acc[0], self.c - u1 - acc[1])
             oid = self.outcome(pair)
             self.written.add(oid)
+            self.leaf_pairs.append(pair)
             return ("t", oid, pair)
         inc = None
         if self.interior and r.random() < 0.3:
             # interior payoffs need not be zero-sum: the terminals complete every path to the constant
-            if self.inc_pool and r.random() < 0.7:
+            if self.leaf_pairs and r.random() < 0.25:
+                a, b = r.choice(self.leaf_pairs)     # the very outcome of some leaf, attached to an interior node as well
+            elif self.inc_pool and r.random() < 0.7:
                 a, b = r.choice(self.inc_pool)       # reuse: the same outcome at several nodes
             else:
                 a = Fraction(r.randint(-8, 8), r.choice([1, 2, 4]))
@@ -233,7 +237,7 @@ class FileGameBuilder:
 
 
 def shuffle_presentation(fg, rng, orders=None):
-    """the same game with action lists written in a different (per-infoset consistent) order"""
+    """the same game with action lists written in a different order (per infoset, or per node of an infoset)"""
     orders = {} if orders is None else orders
     if fg[0] == "t":
         return fg
@@ -248,6 +252,10 @@ def shuffle_presentation(fg, rng, orders=None):
         return ("c", info, [(a, pr, shuffle_presentation(c, rng, orders)) for a, pr, c in acts], oid, p)
     _, pl, info, name, acts, oid, p = fg
     key = ("p", pl, info)
+    if orders.setdefault("__per_node__", rng.random() < 0.5):
+        # half of the files list the actions of one infoset in a different order at each of its nodes
+        orders["__count__"] = orders.get("__count__", 0) + 1
+        key = ("p", pl, info, orders["__count__"])
     if key not in orders:
         perm = list(range(len(acts)))
         rng.shuffle(perm)
